@@ -91,7 +91,13 @@ def pipeline_of(case):
         return {"circuits": [spec], "ops": [{"op": "multiply", "args": [0, 0]}, {"op": "integrate", "args": [1], "scope": vs[:2] if cont else None}]}, [2]
     if m == "pair":
         spec2 = pools.spec_from(dict(c, kin=1 if c["kin"] == 2 else 2, ksum=1 if c["kin"] == 2 else 2))
-        return {"circuits": [spec, spec2], "ops": [{"op": "multiply", "args": [0, 1]}, {"op": "multiply", "args": [1, 0]}]}, [2, 3]
+        ops = [{"op": "multiply", "args": [0, 1]}, {"op": "multiply", "args": [1, 0]}]
+        targets = [2, 3]
+        if not c["inp"].startswith("poly"):
+            ops.append({"op": "integrate", "args": [2], "scope": vs[:2] if cont else None})
+            ops.append({"op": "integrate", "args": [3], "scope": vs[-1:]})
+            targets += [4, 5]
+        return {"circuits": [spec, spec2], "ops": ops}, targets
     if m == "cube":
         return {"circuits": [spec], "ops": [{"op": "multiply", "args": [0, 0]}, {"op": "multiply", "args": [1, 0]}]}, [2]
     if m == "fourth":
